@@ -16,7 +16,7 @@ NEVRA_BIN = ["bash-0:5.1-2.el9.x86_64", "bash-debuginfo-0:5.1-2.el9.x86_64.rpm",
 NEVRA_SRC = ["bash-0:5.1-2.el9.src", "bash-0:5.1-2.el9.src.rpm", "gtk+3-2-1:3.24.1~rc1-2.el9_1.nosrc", "SRPMS/python3-3-7:3.9-1.src.rpm",
              "glibc-00:2.18-11.fc20.src", "bash-007:4.2-1.fc20.nosrc.rpm"]
 NEVRA_BAD = ["bash-5.1-2.el9.x86_64", "foo:bar", "", ":", "a-1:b", "x-0:1-2"]
-PATHS = ["Server/x86_64/os/Packages/b/bash-5.1-2.el9.x86_64.rpm", "Packages/x.rpm", "p"]
+PATHS = ["Server/x86_64/os/Packages/b/bash-5.1-2.el9.x86_64.rpm", "Packages/x.rpm", "p", "Packages/b/b\udce9sh.rpm", "caf\u00e9/x.rpm"]
 PATHS_BAD = ["/abs/path.rpm", "/"]
 SIGKEYS = [None, "ABCDEF12", "abcdef12", "FD431D51", ""]
 CATS = ["binary", "debug", "source"]
@@ -52,7 +52,7 @@ def gen_rpms_op(rng):
 
 UIDS = ["mod:stream", "mod:stream:123", "mod:stream:123:ctx", "nodejs:18:920240101:f2a", "a/b/mod:s", "perl-DBI:1.6"]
 UIDS_BAD = ["mod", "", ":s", "m::v", "m:s:v:c:x", "m:", "a:b:", "m:s\n"]
-MDPATHS = ["Server/x86_64/os/repodata/a-modules.yaml.gz", "md.yaml"]
+MDPATHS = ["Server/x86_64/os/repodata/a-modules.yaml.gz", "md.yaml", "repodata/m\udcffd.yaml"]
 RPMLISTS = [["a-0:1-1.x86_64"], [], ["a-0:1-1.x86_64", "b-0:1-1.noarch"], ["a-0:1-1.x86_64"],
             ["nodejs-10.14.1-1.module_2533.x86_64", "Packages/n/npm-1:6.4.1-1.x86_64.rpm", "pkg1"]]
 
@@ -77,7 +77,7 @@ def gen_modules_op(rng):
             rng.choice(RPMLISTS + ["notalist", None, {"a": 1}])]
 
 
-XPATHS = ["Server/x86_64/os/GPL", "GPL", "Server/x86_64/os-extra/EULA", "Server/x86_64/os/docs/README", "a/b"]
+XPATHS = ["Server/x86_64/os/GPL", "GPL", "Server/x86_64/os-extra/EULA", "Server/x86_64/os/docs/README", "a/b", "Server/x86_64/os/LICEN\udce7E"]
 SIZES = [1234, 0, 2 ** 33, None, "12"]
 CHECKSUMS = [{"sha256": "ab" * 32}, {}, {"md5": "x", "sha1": "y"}]
 
